@@ -16,6 +16,7 @@ import NgVerif.Model.Transform
 import NgVerif.Model.Mesh
 import NgVerif.Model.Slices
 import NgVerif.Model.Http
+import NgVerif.Model.Convert
 /-
   ngdriver: line protocol. One request per line on stdin (space-separated tokens),
   one reply per line on stdout. Unknown / malformed requests answer `bad-request`.
@@ -34,6 +35,15 @@ def parseOp (t : String) : Option (Nat × Bytes) :=
     let b ← hexToBytes h
     pure (i, b)
   | _ => none
+
+def parseScales (t : String) : Option (List Convert.ScaleInfo) :=
+  (t.splitOn ";").mapM fun sc =>
+    match sc.splitOn ":" with
+    | [key, size, css] => do
+      let sz ← (parseList parseNat size) >>= triple
+      let cl ← (css.splitOn "/").mapM fun c => (parseList parseNat c) >>= triple
+      pure ⟨key, sz, cl⟩
+    | _ => none
 
 def showRows (rows : List (Nat × Nat)) : String :=
   showList (fun (a, b) => s!"{a}.{b}") rows
@@ -446,6 +456,19 @@ def handle (toks : List String) : String :=
        | .ok b => s!"ok {bytesToHex b} local {bytesToHex (Http.localRead file o' l)}"
        | .error _ => s!"IOError local {bytesToHex (Http.localRead file o' l)}")
     | _, _, _, _ => "bad-request"
+  | ["convert-plan", dst, src] =>
+    -- keys visited by convert_chunks, each with the verdict of the SOURCE's grid test
+    match parseScales dst, parseScales src with
+    | some d, some sr =>
+      if (d.map fun s => Tiling.count s.size.1 1).sum > 0 ∧
+         ((d.map fun s => (s.chunkSizes.map fun cs =>
+            Tiling.count s.size.1 cs.1 * Tiling.count s.size.2.1 cs.2.1 * Tiling.count s.size.2.2 cs.2.2).sum).sum > 20000) then
+        "too-large"
+      else
+      " ".intercalate ((Convert.plan d).map fun k =>
+        let b := k.2
+        s!"{k.1}@{b.xmin}-{b.xmax}_{b.ymin}-{b.ymax}_{b.zmin}-{b.zmax}:{if Convert.validFor sr k then 1 else 0}{if Convert.validFor d k then 1 else 0}")
+    | _, _ => "bad-request"
   | ["http-dispatch", opt, info] =>
     let i : Option Bool := if info == "none" then none else some (info == "1")
     if Http.dispatchSharded (opt == "1") i then "sharded" else "plain"
